@@ -79,6 +79,18 @@ class GlobalContext:
         self, decs: list[Decorator], ast_ctx: AstEval, func_var: EvalFuncVar
     ) -> None:
         """Create decorator manager from an AST decorator expression."""
+        if self.stopped:
+            #
+            # the script was unloaded or reloaded while this code was still running (or a
+            # Jupyter session goes on after pyscript was unloaded); nothing would ever stop
+            # a trigger or remove a service started now (see also EvalFunc.trigger_init)
+            #
+            self.logger.debug(
+                "function '%s' defined in %s: not activated since the script is no longer loaded",
+                func_var.get_name(),
+                self.name,
+            )
+            return
         dm = FunctionDecoratorManager(ast_ctx, func_var)
         for dec in decs:
             dm.add(dec)
